@@ -3,9 +3,9 @@
    deviations from CacheControl (the P-layer):
      D1 (F11) numeric arguments are read by strtol(): leading blanks, a '+' sign and trailing bytes are tolerated
               (max-age=10abc is 10); a value that does not fit int is refused (fixed in d29e490)
-     D2       httpHeaderParseQuotedString: a quoted-pair whose second byte is DQUOTE or backslash is not decoded
-              (\" ends the string, \\ vanishes), HTAB inside the string is refused, bytes after the closing quote are ignored
-     D3       packInto writes private="..." / no-cache="..." without re-escaping
+     D2       httpHeaderParseQuotedString ignores bytes after the closing quote (private="a"junk is a); quoted-pairs are
+              decoded (c6b45d4) and HTAB is qdtext (80162f8) as in the P-layer
+     D3       (repaired in b77771c) packInto escapes DQUOTE and backslash in private="..." / no-cache="..."
      D4       unknown directives are collected in `other` but do not make parse() return true
    State while parsing: [f, n, l] as in CacheControl plus other (bytes). *)
 EXTENDS CacheControl, SynCList, IntParse
@@ -19,16 +19,17 @@ IInt(arg) == LET r == IntRef(arg) IN
              ELSE IF r.neg THEN [ok |-> FALSE, v |-> 0]
              ELSE [ok |-> TRUE, v |-> W2N(r.mag)]
 RECURSIVE RunEnd(_, _)
-RunEnd(a, e) == IF e <= Len(a) /\ a[e] # 92 /\ a[e] # 34 /\ a[e] > 31 /\ a[e] # 127 THEN RunEnd(a, e + 1) ELSE e
+RunEnd(a, e) == IF e <= Len(a) /\ a[e] # 92 /\ a[e] # 34 /\ (a[e] > 31 \/ a[e] = 9) /\ a[e] # 127 THEN RunEnd(a, e + 1) ELSE e
 RECURSIVE IQ(_, _, _)
 IQ(a, i, acc) ==
   IF i > Len(a) THEN [ok |-> FALSE, v |-> <<>>]
   ELSE IF a[i] = 34 THEN [ok |-> TRUE, v |-> acc]
   ELSE LET j == IF a[i] = 92 THEN i + 1 ELSE i IN
-       IF j > Len(a) THEN [ok |-> FALSE, v |-> <<>>] ELSE
-       LET e == RunEnd(a, j) IN
-       IF e <= Len(a) /\ (a[e] <= 31 \/ a[e] = 127) THEN [ok |-> FALSE, v |-> <<>>]
-       ELSE IQ(a, e, acc \o SubSeq(a, j, e - 1))
+       IF j > Len(a) THEN [ok |-> FALSE, v |-> <<>>]
+       ELSE IF a[i] = 92 /\ a[j] \in {34, 92} THEN IQ(a, j + 1, Append(acc, a[j]))      \* quoted-pair of a special byte
+       ELSE LET e == RunEnd(a, j) IN
+            IF e <= Len(a) /\ ((a[e] <= 31 /\ a[e] # 9) \/ a[e] = 127) THEN [ok |-> FALSE, v |-> <<>>]
+            ELSE IQ(a, e, acc \o SubSeq(a, j, e - 1))
 IQuoted(a) == IF Len(a) = 0 \/ a[1] # 34 THEN [ok |-> FALSE, v |-> <<>>] ELSE IQ(a, 2, <<>>)
 
 Empty == [f |-> [d \in Flags |-> FALSE], n |-> [d \in Nums |-> Absent], l |-> [d \in Lists |-> AbsentL], other |-> <<>>]
@@ -63,7 +64,7 @@ IPackOne(c, d) ==
                            ELSE <<NameBytes[d] \o <<61>> \o Dec(c.n[d].v)>>)
   ELSE (IF ~c.l[d].has THEN <<>>
         ELSE IF c.l[d].v = <<>> THEN <<NameBytes[d]>>
-        ELSE <<NameBytes[d] \o <<61, 34>> \o c.l[d].v \o <<34>>>>)                         \* D3
+        ELSE <<NameBytes[d] \o <<61, 34>> \o QEsc(c.l[d].v) \o <<34>>>>)
 RECURSIVE IPackFrom(_, _)
 IPackFrom(c, k) == IF k > Len(Order) THEN <<>> ELSE IPackOne(c, Order[k]) \o IPackFrom(c, k + 1)
 IPack(c) == IF ~IRet(c) THEN <<>>
